@@ -57,6 +57,10 @@ def declare(kinds, doms, how="let", order=None):
             xs[i] = cls(From(doms[i]))
         else:
             xs[i] = let(cls, doms[i])
+        if isinstance(doms[i], (list, tuple)):
+            if len(C.VAR_DOMAIN) > 200:
+                C.VAR_DOMAIN.clear()
+            C.VAR_DOMAIN[id(xs[i])] = list(doms[i])
     return xs
 
 
